@@ -3,7 +3,7 @@ CONSTANTS
   Families <- AllFamilies
   CandClasses <- AllCands
   ModeCounts = {0, 1, 2, 3}
-  WidthOpts = {"none", "given"}
+  WidthOpts = {"none", "given", "zero"}
   LevelOpts = {"fixed", "auto", "adjust", "autoadjust"}
 INVARIANT ClassKept
 INVARIANT ConstraintsFrozen
